@@ -8,7 +8,11 @@ Rounding-error analysis of the Cholesky factorisation (`Cv.LA.cholLoops` / `Cv.L
 standard model of floating-point arithmetic: the scalar type `Fl M` of `Lemmas/FlModel.lean` is given
 the remaining operations the factorisations need (`<`, `≤`, `==`, `Transc` with a square root of
 relative error `≤ u`), the Cholesky sweep is characterised cell by cell for *every* scalar type
-(`cholLoops_cellsG`, no algebra), and each cell is analysed with the factor calculus.
+(`cholLoops_cellsG`, no algebra), and each cell is analysed with the factor calculus
+(`cell_bound`, `cell_div`, `cell_sub`, `cell_sqrt` → `cholLoops_backward_error`).  Also here: the
+composition of a factorisation with two perturbed triangular solves (`compose_backward`, `γ_three`,
+`residual_of_backward_mat`; Higham Thms 9.4 / 10.4), shared with the LU analysis of
+`Lemmas/FactorRoundingLu.lean`.
 -/
 set_option linter.unusedSectionVars false
 set_option linter.unusedVariables false
